@@ -16,6 +16,12 @@ def o_c13_begin(w, args):
     sh = _shadow(w, args[0]); sh['sets'] = {}; sh['index'] = impl.parse_idx(args[1])
     return None
 
+@oracle('c13-begin-index')
+def o_c13_begin_index(w, args):
+    """the script moved the index behind the shadow's back (an implementation-only step): read it"""
+    sh = _shadow(w, args[0]); sh['index'] = w.vars[args[0]].getIndex()
+    return None
+
 @oracle('c13-pre')
 def o_c13_pre(w, args):
     f = args[0]; c = w.vars[f]; sh = _shadow(w, f); line = ' '.join(args[1:]); toks = line.split(); kw = toks[0]
@@ -24,6 +30,9 @@ def o_c13_pre(w, args):
         s = parse_name(toks[2])
         if c.containsSimplexAtSomeIndex(s):
             st['V'] = frozenset(map(tok, c.basisOf(s)))
+    if kw == 'dels':
+        T = impl.Toks(toks[2:]); ss = T.names()
+        st['Vs'] = [frozenset(map(tok, c.basisOf(s))) for s in ss if has(c, s)]       # (what is not visible now is skipped by the call)
     if kw == 'add':
         T = impl.Toks(toks[2:]); fs = T.names()
         st['faces_V'] = [frozenset(map(tok, c.basisOf(x))) if c.containsSimplexAtSomeIndex(x) else None for x in fs]
@@ -58,6 +67,15 @@ def o_c13_post(w, args):
                     S[frozenset(x)] = sh['index']
     elif kw == 'del' and ok and 'V' in st:
         for U in [U for U in S if st['V'] <= U]:
+            del S[U]
+    elif kw == 'dels' and ok:
+        # bulk deletion: the stars of all the simplices named, across all indices
+        for V in st.get('Vs', []):
+            for U in [U for U in S if V <= U]:
+                del S[U]
+    elif kw == 'restrict' and ok:
+        T = impl.Toks(toks[2:]); keep = frozenset(map(tok, T.names()))
+        for U in [U for U in S if not U <= keep]:
             del S[U]
     return c13_message(c, sh, kw)
 
